@@ -414,6 +414,49 @@ Proof.
     + apply (Hr2 y a Hy lf Hlf).
 Qed.
 
+(** * declaring a key *)
+Lemma store_add_key_core s dr tok : same_core s (fst (store_add_key s dr tok)).
+Proof.
+  unfold store_add_key. destruct (ref_set s dr) as [h|]; [|apply same_core_refl].
+  destruct (get_set s h) as [d|]; [|apply same_core_refl]. destruct (dset_add_key d tok) as [d' r]. core.
+Qed.
+
+Lemma dset_add_key_shape d tok :
+  d_data (fst (dset_add_key d tok)) = d_data d /\ exists ks, d_keys (fst (dset_add_key d tok)) = d_keys d ++ ks.
+Proof.
+  unfold dset_add_key. destruct (ref_key d (ById tok)); cbn [fst d_data d_keys]; split; try reflexivity;
+    [exists []; rewrite app_nil_r; reflexivity|eexists; reflexivity].
+Qed.
+
+Lemma store_add_key_grow s dr tok : sets_grow s (fst (store_add_key s dr tok)).
+Proof.
+  unfold store_add_key. destruct (ref_set s dr) as [h|]; [|apply sets_grow_refl].
+  destruct (get_set s h) as [d|] eqn:Hd; [|apply sets_grow_refl].
+  destruct (dset_add_key_shape d tok) as (Ed & _). destruct (dset_add_key d tok) as [d' r]. cbn [fst] in *.
+  intros dx (ds & it & H1 & H2). unfold data_exists, get_set in *. cbn [set_sets sets]. rewrite slot_set_slot.
+  destruct ((fst dx =? h) && (h <? length (sets s))) eqn:E.
+  - apply andb_prop in E. destruct E as [E _]. apply Nat.eqb_eq in E. rewrite E in H1. rewrite Hd in H1. inversion H1; subst ds.
+    exists d', it. split; [reflexivity|]. rewrite Ed. exact H2.
+  - exists ds, it. tauto.
+Qed.
+
+Lemma store_add_key_items s dr tok : items_grow s (fst (store_add_key s dr tok)).
+Proof.
+  unfold store_add_key. destruct (ref_set s dr) as [h|]; [|apply items_grow_refl].
+  destruct (get_set s h) as [d|] eqn:Hd; [|apply items_grow_refl].
+  destruct (dset_add_key_shape d tok) as (Ed & ks & Ek). destruct (dset_add_key d tok) as [d' r]. cbn [fst] in *.
+  split.
+  - intros r0 rs H. exists rs. split; [exact H|lia].
+  - intros d0 ds H. unfold get_set in *. cbn [set_sets sets]. rewrite slot_set_slot.
+    destruct ((d0 =? h) && (h <? length (sets s))) eqn:E.
+    + apply andb_prop in E. destruct E as [E _]. apply Nat.eqb_eq in E. subst d0. rewrite Hd in H. inversion H; subst ds.
+      exists d'. split; [reflexivity|]. split; [|rewrite Ed; tauto].
+      intros k Hk. rewrite Ek. destruct (slot (d_keys d) k) as [v|] eqn:S; [|congruence].
+      unfold slot in *. rewrite app_nth1; [rewrite S; discriminate|].
+      destruct (Nat.lt_ge_cases k (length (d_keys d))) as [L|L]; [exact L|]. rewrite nth_overflow in S by exact L. discriminate.
+    + exists ds. split; [exact H|split; tauto].
+Qed.
+
 (** * every step keeps the store good *)
 Theorem step_Good s o : Good s -> Good (fst (step s o)).
 Proof.
@@ -440,6 +483,10 @@ Proof.
   - apply rm_key_Good. split; [exact HI|split; [assumption|split; [assumption|split; assumption]]].
   - destruct (rm_resource_Inv noex s r HI Hwf) as (A & B & C & D & E). split; [exact A|split; [exact B|split; [exact (C Hok)|split; [exact (D Hrf)|exact (E Hit)]]]].
   - destruct (rm_dataset_Inv noex s r HI Hwf) as (A & B & C & D & E). split; [exact A|split; [exact B|split; [exact (C Hok)|split; [exact (D Hrf)|exact (E Hit)]]]].
+  - pose proof (store_add_key_core s d tok) as C.
+    split; [exact (Inv_same_core _ _ _ C HI)|]. split; [apply (wf_frame s); [apply C|exact Hwf]|].
+    split; [|split; [apply (ann_refs_frame s); [apply C|exact Hrf]|apply (item_refs_grow s); [apply C|apply store_add_key_items|exact Hit]]].
+    apply (data_ok_grow s); [apply C|apply store_add_key_grow|exact Hok].
 Qed.
 
 Lemma Good_init : Good empty_store.
